@@ -9,6 +9,7 @@ sys.path.insert(0, os.path.dirname(os.path.abspath(__file__)))
 import cbgen
 
 CT = cbgen.CTYPE
+PTRS = ("ptr", "vptr", "cvptr")
 
 
 def split_params(text):
@@ -128,8 +129,8 @@ def gen(model, header_text):
                         fmt.append("[%d,%lld,%d]"); vals.append("a%d.x, (long long)a%d.y, (int)a%d.z" % (i, i, i))
                     elif t == "slice":
                         fmt.append("[%d,%llu]"); vals.append("(int)(a%d.data - SBUF), (unsigned long long)a%d.len" % (i, i))
-                    elif t == "ptr":
-                        fmt.append("%d"); vals.append("(int)(a%d - SBUF)" % i)
+                    elif t in PTRS:
+                        fmt.append("%d"); vals.append("(int)((const unsigned char *)a%d - SBUF)" % i)
                     elif t in cbgen.CB_ELEM:
                         fmt.append("[%d,%d]"); vals.append("(int)(a%d.context == (void *)&CBX), (int)(a%d.func == mock_cb_%s)" % (i, i, cbgen.CB_ELEM[t][0]))
                     elif t == "fnptr":
@@ -143,12 +144,14 @@ def gen(model, header_text):
                     if ctx == "Arc":
                         body.append("    if (cont.context.drop_fn) cont.context.drop_fn(cont.context.instance);")
                 uid = ti * 100 + len(rvals)
-                rvals[(ti, tr, m["name"])] = {"void": [], "u64": [7000 + uid], "i32": [300 + uid], "Pt": [11 + uid, 1000 + uid, 5], "cont": [1, 1, 1]}[m["ret"]]
+                rvals[(ti, tr, m["name"])] = {"void": [], "u64": [7000 + uid], "i32": [300 + uid], "Pt": [11 + uid, 1000 + uid, 5], "cont": [1, 1, 1],
+                                                    "ptr": [1 + uid % 7], "vptr": [1 + uid % 7], "cvptr": [1 + uid % 7]}[m["ret"]]
                 # a container-returning entry (Clone-like) hands back a new container: other instance, same context, nothing to release
                 newc = "    { struct %s r = *cont; r.instance%s = &INST2;%s%s return r; }" % (
                     cname, ".instance" if cont == "Box" else "", " r.instance.drop_fn = 0;" if cont == "Box" else "",
                     " r.context.clone_fn = 0; r.context.drop_fn = 0;" if ctx == "Arc" else "")
                 rv = {"void": "", "u64": "    return %dULL;" % (7000 + uid), "i32": "    return %d;" % (300 + uid),
+                      "ptr": "    return SBUF + %d;" % (1 + uid % 7), "vptr": "    return (void *)(SBUF + %d);" % (1 + uid % 7), "cvptr": "    return (const void *)(SBUF + %d);" % (1 + uid % 7),
                       "Pt": "    { struct Pt r; r.x = %d; r.y = %d; r.z = %d; return r; }" % (11 + uid, 1000 + uid, 5), "cont": newc}[m["ret"]]
                 c.append("static %s %s(%s%s) {\n%s\n%s\n}\n" % (ret, fn, recv, args, "\n".join(body), rv))
         for tr in trs:
@@ -210,8 +213,8 @@ def gen(model, header_text):
                     argv.append("(struct Pt){%d, %d, %d}" % (3 + i, -40 - i, 9)); sent.append([3 + i, -40 - i, 9])
                 elif t == "slice":
                     argv.append("(struct CSliceRef_u8){SBUF + %d, %d}" % (i + 1, 4)); sent.append([i + 1, 4])
-                elif t == "ptr":
-                    argv.append("SBUF + %d" % (i + 2)); sent.append(i + 2)
+                elif t in PTRS:
+                    argv.append("(%s)(SBUF + %d)" % (CT[t], i + 2)); sent.append(i + 2)
                 elif t in cbgen.CB_ELEM:
                     argv.append("(OpaqueCallback_%s){&CBX, mock_cb_%s}" % (cbgen.CB_ELEM[t][0], cbgen.CB_ELEM[t][0])); sent.append([1, 1])
                 elif t == "fnptr":
@@ -232,6 +235,10 @@ def gen(model, header_text):
             elif m["ret"] == "Pt":
                 blk.append("    struct Pt r = %s;" % call)
                 blk.append('    printf("{\\"ev\\":\\"ret\\",\\"k\\":%d,\\"val\\":[%%d,%%lld,%%d]}\\n", r.x, (long long)r.y, (int)r.z);' % k)
+            elif m["ret"] in PTRS:
+                # a pointer result: reported as an offset into the driver's buffer (the wrapper must hand back the entry's pointer)
+                blk.append("    unsigned long long r = (unsigned long long)((const unsigned char *)%s - SBUF);" % call)
+                blk.append('    printf("{\\"ev\\":\\"ret\\",\\"k\\":%d,\\"val\\":[%%llu]}\\n", r);' % k)
             else:
                 blk.append("    unsigned long long r = (unsigned long long)%s;" % call)
                 blk.append('    printf("{\\"ev\\":\\"ret\\",\\"k\\":%d,\\"val\\":[%%llu]}\\n", r);' % k)
@@ -250,7 +257,8 @@ def main():
     open(os.path.join(wd, "processed.h"), "w").write(header)
     open(os.path.join(wd, "driver.c"), "w").write(src)
     json.dump(expected, open(os.path.join(wd, "expected.json"), "w"))
-    p = subprocess.run(["gcc", "-std=c99", "-O0", "-w", "-o", os.path.join(wd, "driver"), os.path.join(wd, "driver.c")], capture_output=True, text=True)
+    # optimised: a wrapper that loses its result (or reads something indeterminate) must not pass by the accident of a register
+    p = subprocess.run(["gcc", "-std=c99", os.environ.get("VERIF_MOCK_OPT", "-O2"), "-w", "-o", os.path.join(wd, "driver"), os.path.join(wd, "driver.c")], capture_output=True, text=True)
     if p.returncode != 0:
         print(json.dumps({"ev": "compile_error", "text": p.stderr[-1500:]}))
         return 1
